@@ -141,6 +141,7 @@ struct Explorer {
                 }
             }
             uint16_t nTrans = 0; std::vector<unsigned char> trs;
+            struct Done { int id; Outcome oc; Key post; }; std::vector<Done> doneOps;
             auto sanLine = [&](int opId) { std::string rep = takeSanitizerReport(); if (!rep.empty()) { st.sanReports++; for (auto& c : rep) if (c == '\t' || c == '\n') c = '|'; fprintf(fv, "SAN\t-\t%u\t%d\t%s\n", pi, opId, rep.c_str()); } };
             sanLine(-1);
             if (status == 0 && expand) for (int id : enabledOps) {
@@ -174,11 +175,25 @@ struct Explorer {
                         }
                     }
                     emitSink(id, b);
+                    doneOps.push_back({id, oc, post.key});
                     uint16_t oid = (uint16_t)id; uint8_t o8 = (uint8_t)oc;
                     trs.insert(trs.end(), (unsigned char*)&oid, (unsigned char*)&oid + 2); trs.push_back(o8);
                     trs.insert(trs.end(), (unsigned char*)&post.key, (unsigned char*)&post.key + sizeof(Key)); nTrans++;
                 }
                 sanLine(id);   // includes the destructors of this transition's world
+            }
+            // "the object is the same as before the refused call" also means: whatever is called NEXT behaves as if the refused call had never been made
+            // (a refusal leaves no hidden trace). For parents up to depth VF_REFUSAL_TWIN_DEPTH-1: every refused call r, then every call o, against o alone.
+            if (status == 0 && expand && orc.c10 && h.size() < (size_t)atoi(getenv("VF_REFUSAL_TWIN_DEPTH") ? getenv("VF_REFUSAL_TWIN_DEPTH") : "2")) {
+                for (auto& r : doneOps) { if (r.oc == OK) continue; bool reported = false;
+                    for (auto& o : doneOps) { if (reported) break;
+                        World w3(wdir); WSnap p3; st.executions++;
+                        if (!replay(w3, h, &p3) || p3.key != fkeys[pi]) break;
+                        CallInfo c1; Outcome o1 = guarded([&] { ops[r.id].apply(w3, p3, c1); }); if (o1 == OK) break; WSnap mid = snapWorld(w3); if (mid.key != p3.key) break;   // (reported by tr_C10 already)
+                        CallInfo c2; Outcome o2 = guarded([&] { ops[o.id].apply(w3, mid, c2); }); WSnap end = snapWorld(w3);
+                        if (o2 != o.oc || end.key != o.post) { size_t b = sink.size(); V(sink, "C10", "refused_call_changes_later_call/" + ops[r.id].cls + "->" + ops[o.id].cls, "after the refused " + ops[r.id].name + ", " + ops[o.id].name + " ends in " + outcomeName(o2) + (o2 == o.oc ? " with another object" : std::string(" instead of ") + outcomeName(o.oc))); emitSink(r.id, b); reported = true; }
+                    }
+                }
             }
             rec.insert(rec.end(), (unsigned char*)&pi, (unsigned char*)&pi + 4); rec.push_back(status);
             rec.insert(rec.end(), (unsigned char*)&nTrans, (unsigned char*)&nTrans + 2); rec.insert(rec.end(), trs.begin(), trs.end());
